@@ -151,7 +151,7 @@ def parse_dump(s, ps):
     except LatexWalkerParseError as e:
         return ('error', getattr(e, 'pos', None), (getattr(e, 'error_type_info', None) or {}).get('what'))
     except Exception as e:
-        return ('exc', type(e).__name__, str(e)[:80])
+        return ('exc', type(e).__name__)     # (messages may quote object identities)
 
 
 def snap(ps):
@@ -195,11 +195,16 @@ def check_chain(chain, strings, res, case_base, label=True, root=None):
                 for toks in strings:
                     if len(toks) <= 2:
                         parent_before[tuple(toks)] = token_seq(''.join(toks), states[-1], True)
+            from pylatexenc.latexnodes import ParsingState
+            try:
+                asked = ParsingState(**dict(states[-1].get_fields(), **to_kwargs(step)))
+            except Exception:
+                # a field set the constructor itself rejects is outside the domain
+                res.label('chain-outside-domain:constructor-rejects-fields')
+                return
             states.append(states[-1].sub_context(**to_kwargs(step)))
             # the fields of the derived state are those of the state it was derived from with
             # the given ones replaced -- as the constructor itself interprets such a field set
-            from pylatexenc.latexnodes import ParsingState
-            asked = ParsingState(**dict(states[-2].get_fields(), **to_kwargs(step)))
             if snap(states[-1]) != snap(asked):
                 diff = sorted(k for k in snap(asked) if snap(asked)[k] != snap(states[-1]).get(k))
                 res.fail('c17:derived-fields-not-as-requested:' + ','.join(diff)[:60],
@@ -224,7 +229,11 @@ def check_chain(chain, strings, res, case_base, label=True, root=None):
         res.fail('c17:fresh-fields-differ', 'ParsingState(**get_fields()).get_fields() differs',
                  dict(case_base, tokens=[]))
     parent = states[-2]
-    parent_fresh = ParsingState(**parent.get_fields())
+    try:
+        parent_fresh = ParsingState(**parent.get_fields())
+    except Exception as e:
+        res.fail(exc_key(e), exc_detail(e), dict(case_base, tokens=[]))
+        return
     for toks in strings:
         s = ''.join(toks)
         case = dict(case_base, tokens=list(toks))
